@@ -336,18 +336,41 @@ fn moves_lists(tier: Tier) -> Vec<(String, String)> {
         }
         out.push((g.join(" "), p.to_fen()));
     }
-    let mut shuffle: Vec<&str> = Vec::new();
-    for _ in 0..75 {
-        shuffle.extend(["g1f3", "g8f6", "f3g1", "f6g8"]);
+    // games of every magnitude of length ("0..hundreds of moves" and beyond): knight shuffles with a
+    // pawn step every 90 plies, cut at 0..=64 plies and at 2^k-1, 2^k, 2^k+1 plies up to 2 049
+    // (4 097 in thorough runs). The half-move clock stays far below 4096, the domain of the board's
+    // undo field, so the consumer replay is meaningful for every length.
+    let mut lens: Vec<usize> = (0..=64).collect();
+    for k in 7..=(if tier == Tier::Quick { 11 } else { 12 }) {
+        lens.extend([(1usize << k) - 1, 1 << k, (1 << k) + 1]);
     }
-    out.push((shuffle.join(" "), {
+    lens.push(300);
+    let longest = *lens.iter().max().unwrap();
+    let mut game: Vec<String> = Vec::new();
+    let mut fens: Vec<String> = vec![start.to_fen()];
+    {
         let mut p = start.clone();
-        for u in &shuffle {
-            let m = p.find_legal_uci(u).unwrap();
+        let cycle = ["g1f3", "g8f6", "f3g1", "f6g8", "b1c3", "b8c6", "c3b1", "c6b8"];
+        let pawn_steps = ["a2a3", "a7a6", "h2h3", "h7h6", "a3a4", "a6a5", "h3h4", "h6h5", "b2b3", "b7b6", "g2g3", "g7g6", "d2d3", "d7d6", "e2e3", "e7e6", "b3b4", "b6b5", "g3g4", "g6g5", "d3d4", "d6d5", "e3e4", "e6e5"];
+        let (mut ci, mut pi) = (0usize, 0usize);
+        while game.len() < longest {
+            // two pawn steps (one per side) after every 88 shuffle plies, while any are left
+            let u = if game.len() % 90 >= 88 && pi < pawn_steps.len() {
+                pi += 1;
+                pawn_steps[pi - 1]
+            } else {
+                ci += 1;
+                cycle[(ci - 1) % cycle.len()]
+            };
+            let m = p.find_legal_uci(u).unwrap_or_else(|| panic!("generated game move {} illegal in {}", u, p.to_fen()));
             p = p.make(&m);
+            game.push(u.to_string());
+            fens.push(p.to_fen());
         }
-        p.to_fen()
-    }));
+    }
+    for n in lens {
+        out.push((game[..n].join(" "), fens[n].clone()));
+    }
     out
 }
 
@@ -664,6 +687,13 @@ fn main() {
     for len in 1..=max_pat {
         for mask in 0u32..(1 << len) {
             let l: Vec<String> = (0..len).map(|i| if mask & (1 << i) != 0 { format!("{}7{}8{}", (b'a' + (i % 8) as u8) as char, (b'a' + ((i + 1) % 8) as u8) as char, ["q", "r", "b", "n"][i % 4]) } else { format!("{}2{}4", (b'a' + (i % 8) as u8) as char, (b'a' + (i % 8) as u8) as char) }).collect();
+            token_lists.push(l);
+        }
+    }
+    // token lists of every magnitude of length (identity only; these are not games)
+    for k in 4..=(if tier == Tier::Quick { 15 } else { 17 }) {
+        for n in [(1usize << k) - 1, 1 << k, (1 << k) + 1] {
+            let l: Vec<String> = (0..n).map(|i| if i % 7 == 3 { format!("{}7{}8{}", (b'a' + (i % 8) as u8) as char, (b'a' + ((i + 1) % 8) as u8) as char, ["q", "r", "b", "n"][i % 4]) } else { format!("{}2{}4", (b'a' + (i % 8) as u8) as char, (b'a' + (i % 5) as u8) as char) }).collect();
             token_lists.push(l);
         }
     }
